@@ -27,6 +27,8 @@
 
 typedef int v_va_list;               /* va_list: abstract */
 typedef unsigned long v_fnptr;     /* pointer to function: opaque code address */
+static inline int64_t v_nondet_i64(void) { int64_t x; return x; }
+static inline _Bool v_nondet_bool(void) { _Bool b; return b; }
 static int __exc;                  /* ghost exception code of the extracted code: 0 = none (DESIGN 3.1) */
 static size_t v_mc_off[2];          /* ghost: tracked offsets inside the next copies */
 static int v_errno;
